@@ -121,10 +121,38 @@ def run(prog: Program, res: Result, tier: str) -> None:
     # ---- R3 (cont.) no negative delay reaches the folding kernel (shared with C09.R3; F38) ---------------------------------
     from ..lints import check_delay_sign
     check_delay_sign(prog, res, "R3", only={"fold"})
+    # ---- R1 (cont.) the phase model is evaluated in double precision: (isamp + index) * tsamp / period needs more than the
+    # 24-bit mantissa of a float32 once the series is longer than ~2**23 samples (F46) --------------------------------------
+    sigs = (k.numba or {}).get("signatures", []) if isinstance(k.numba, dict) else []
+    pos = {p: i for i, p in enumerate(k.positional_params)}
+    key = "fold:phase-precision"
+    bad_sig = []
+    for sg in sigs:
+        inner = sg[sg.index("(") + 1: sg.rindex(")")]
+        parts, depth, cur = [], 0, ""
+        for ch in inner:
+            if ch == "," and depth == 0:
+                parts.append(cur.strip())
+                cur = ""
+            else:
+                depth += ch in "[(" 
+                depth -= ch in "])"
+                cur += ch
+        parts.append(cur.strip())
+        for p in ("tsamp", "period", "accel"):
+            if p in pos and pos[p] < len(parts) and parts[pos[p]] not in ("f8", "float64"):
+                bad_sig.append(f"{p}: {parts[pos[p]]}")
+    if not sigs:
+        res.ok("R1", k, k.node, "fold has no explicit numba signature: Python floats reach the phase model as float64", key=key, construct="signature")
+    elif bad_sig:
+        res.bad("R1", k, k.node, f"fold's numba signature declares {sorted(set(bad_sig))}: the phase of sample 2**23 and beyond is computed from a period/tsamp "
+                "rounded to 24 bits (relative error ~7e-8), so a strictly periodic pulse train drifts across phase bins", key=key, construct="signature")
+    else:
+        res.ok("R1", k, k.node, "tsamp, period and accel are float64 in every signature of fold", key=key, construct="signature")
     # ---- R6 the plan the folding loop consumes (shared with C01) ------------------------------------------------------
     depends(res, "R6", prog, tier, "C01", why="the blocks these loops consume come from read_plan: the plan rules of C01 (and, through them, the multi-file stream rules of C02) are re-evaluated here")
     res.floor("R6", 40)
-    res.floor("R1", 1)
+    res.floor("R1", 2)
     res.floor("R2", 4)
     res.floor("R3", 3)
     res.floor("R4", 6)
@@ -187,6 +215,8 @@ B = "sigpyproc/base.py"
 K = "sigpyproc/core/kernels.py"
 T = "sigpyproc/timeseries.py"
 MUTANTS = [
+    {"id": "c11-revert-F46", "file": "sigpyproc/core/kernels.py", "expect": "C11.R1",
+     "old": "        \"void(u1[:], f4[:], i4[:], i4[:], i4, f8, f8, f8, i4, i4, i4, i4, i4, i4, i4)\",\n", "new": "        \"void(u1[:], f4[:], i4[:], i4[:], i4, f4, f4, f4, i4, i4, i4, i4, i4, i4, i4)\",\n"},
     {"id": "c11-revert-F38", "file": "sigpyproc/base.py", "expect": "C11.R3",
      "old": "        chan_delays = self.header.get_dmdelays(dm)\n        # Channels that lead the reference (ascending band, negative DM) have\n        # negative delays: count them from the earliest channel instead\n        min_delay = min(0, int(chan_delays.min()))\n        chan_delays = chan_delays - min_delay\n        max_delay = int(chan_delays.max())\n        gulp = max(2 * max_delay, gulp)\n        fold_ar = np.zeros(", "new": "        chan_delays = self.header.get_dmdelays(dm)\n        min_delay = 0\n        max_delay = int(chan_delays.max())\n        gulp = max(2 * max_delay, gulp)\n        fold_ar = np.zeros("},
     {"id": "c11-index-without-lead", "file": "sigpyproc/base.py", "expect": "C11.R3",
@@ -208,7 +238,7 @@ MUTANTS = [
     {"id": "c11-phase-no-half", "file": K, "expect": "C11.R1",
      "old": "nbins * tj * (1 + accel * (tj - tobs) / (2 * CONST_C_VAL)) / period + 0.5", "new": "nbins * tj * (1 + accel * (tj - tobs) / (2 * CONST_C_VAL)) / period"},
     {"id": "c11-swap-nints-nbands-args", "file": B, "expect": "C11.R",
-     "old": "                nbins,\n                nints,\n                nbands,\n                ii * (gulp - max_delay),", "new": "                nbins,\n                nbands,\n                nints,\n                ii * (gulp - max_delay),"},
+     "old": "                nbins,\n                nints,\n                nbands,\n                ii * (gulp - max_delay) - min_delay,", "new": "                nbins,\n                nbands,\n                nints,\n                ii * (gulp - max_delay) - min_delay,"},
     {"id": "c11-ts-total", "file": T, "expect": "C11.R5",
      "old": "            self.data.size,\n            self.data.size,\n            1,\n            nbins,", "new": "            self.header.nsamples - 1,\n            self.data.size,\n            1,\n            nbins,"},
     {"id": "c11-no-skipback", "file": B, "expect": "C11.R3",
